@@ -414,6 +414,9 @@ def stepCore (e : Env) (line : String) : Env × String :=
       let some n := ns.toNat? | throw "bad n"
       pure (e, showSpec (Pepit.Method.pg γ n))
     | "spec.gfsc" :: _ => pure (e, showSpec Pepit.Method.gfsc)
+    | "spec.gfc" :: _ :: ts :: _ =>
+      let some t := parseRat ts | throw "bad rat"
+      pure (e, showSpec (Pepit.Method.gfc t))
     | "spec.gdl1" :: _ :: l :: g :: ns :: _ =>
       let some L := parseRat l | throw "bad rat"
       let some γ := parseRat g | throw "bad rat"
